@@ -494,8 +494,11 @@ func findNonSpace(r []rune, i, end int) int {
 // findEnd finds end of the current symbol (position of next #, space, or line
 // end), returning end if not found.
 func findEnd(r []rune, i, end int) int {
-	for c := grab(r, i+1, end); i < end && c != '#' && !unicode.IsSpace(c) && !unicode.IsControl(c); i++ {
-		c = grab(r, i+1, end)
+	if i >= end {
+		return i
+	}
+
+	for i++; i < end && r[i] != '#' && !unicode.IsSpace(r[i]) && !unicode.IsControl(r[i]); i++ {
 	}
 
 	return i
@@ -533,8 +536,9 @@ func decodeKey(seq []rune, pos, end int) (string, int, error) {
 	// seek end of sequence
 	start := pos
 
-	for c := grab(seq, pos+1, end); pos < end && c != ':' && c != '#' && !unicode.IsSpace(c) && !unicode.IsControl(c); pos++ {
-		c = grab(seq, pos+1, end)
+	if pos < end {
+		for pos++; pos < end && seq[pos] != ':' && seq[pos] != '#' && !unicode.IsSpace(seq[pos]) && !unicode.IsControl(seq[pos]); pos++ {
+		}
 	}
 
 	val := strings.ToLower(string(seq[start:pos]))
